@@ -4,13 +4,16 @@
 (* NoPanicExit + "a diagnostic names the file") is the same for every vector; the expected        *)
 (* outcome CLASS below only says which side of ExitOk applies when the construct is rejected.     *)
 EXTENDS TLC, Json, Sequences
-CONSTANTS Constructs, Langs, Modes, Companions, Packages
+CONSTANTS Constructs, Langs, Modes, Companions, Packages, Invocations
 VARIABLE v
 
 \* packages: "given" = the package options every backend wants are on the command line; "none" = no package option at all
 \* (Kotlin / Scala / Go without a package: the property lists "empty packages"); explored on the plain supported struct only
-Init == v \in { r \in [construct : Constructs, lang : Langs, mode : Modes, companion : Companions, packages : Packages] :
-                  r.packages = "none" => (r.construct \in {"ok_struct", "generic_tree"} /\ r.companion = "none") }
+\* invocation: how the source directories are named on the command line: absolute (the tree's root) / relative_src (the working
+\* directory is a crate directory and the argument is the relative path `src`, next to `../crate_b/src`) / relative_dot (`.`)
+Init == v \in { r \in [construct : Constructs, lang : Langs, mode : Modes, companion : Companions, packages : Packages, invocation : Invocations] :
+                  /\ r.packages = "none" => (r.construct \in {"ok_struct", "generic_tree"} /\ r.companion = "none")
+                  /\ r.invocation # "absolute" => (r.construct \in {"ok_struct", "not_rust"} /\ r.packages = "given" /\ r.lang \in {"typescript", "swift"}) }
 Next == UNCHANGED v
 \* Go and Scala cannot generate without a package name: that is a configuration error. No source file is at fault, so the
 \* diagnostic has to name the missing option instead of a file (still: non-zero exit, no panic, no hang).
